@@ -45,11 +45,14 @@ CHECKS = {
  "C16": dict(
     text="Proof (static clause): every LOAD_GLOBAL / module-level LOAD_NAME of every code object of the package, regenerated "
          "from the bytecode on every run, refers to a name bound in its module or builtins (kernel-checked finite "
-         "computation). Partial: the dynamic clauses (no interpreter-level fault from read_pil, ignored reactions survive, "
-         "failed reads leave held objects valid) are not yet theorems about a reader model; every run executes "
-         "single-fault corruptions of generated documents (30 fault kinds) and token-level multi-fault mutations against "
-         "the implementation and reports any undeclared exception as a violation with the document as replay.",
-    design="DESIGN.md 7 (C16)", technique="Coq proof over the regenerated global-reference table; fault-stream exploration of the reader as support"),
+         "computation). Dynamic clauses, on the reader model of C14: read_pil of any list of well-shaped lines in any good session "
+         "never ends in an interpreter-level fault kind (NameError, TypeError, AttributeError, IndexError, KeyError, "
+         "UnboundLocalError, ValueError, ZeroDivisionError, OverflowError), ignored reactions go to `other` and the read "
+         "continues, a failed read leaves every held object alive and registered. Partial: that every parser output is "
+         "well-shaped is checked at run time, not proved; lengths above sys.maxsize are outside the model (known finding). "
+         "Every run also executes 40 kinds of single-fault corruptions of generated documents and token-level mutations "
+         "against the implementation and reports any undeclared exception with the document as replay.",
+    design="DESIGN.md 7 (C16)", technique="Coq proof over the regenerated global-reference table and on the reader model; fault streams on the implementation as support"),
  "C10": dict(
     text="Proof: for every kind (complexes/strands, macrostates, reactions over complexes and over macrostates, domains) the "
          "operators computed from canonical forms are coherent: == iff equal canonical forms, equal objects hash equally for "
@@ -107,6 +110,103 @@ CHECKS = {
          "each view is given explicitly as a function of the current (sequence, structure). Tied to the code by comparing "
          "every observation of random and exhaustive (query, assign, query) histories on real ComplexS objects.",
     design="DESIGN.md 7 (C03)", technique="Coq proof (state-machine invariant by induction over operation lists, on the rotation theory) + model/implementation correspondence"),
+ "C07": dict(
+    text="Proof, for every well-formed aligned (sequence, structure) pair with no size bound: rotate_complex_once succeeds and "
+         "returns a well-formed aligned pair with the strands cyclically shifted and content unchanged; its pair table is the "
+         "shifted table relabelled by (si,di) -> ((si+n-1) mod n, di), also stated pointwise on loci; n applications are the "
+         "identity; the map is a bijection preserving the strand count; rotate_pairtable_loc is that relabelling, additive in "
+         "the turn count with period n; rotate_complex_pt's step is the inverse relabelling; for non-empty strands "
+         "ComplexS.rotate()/rotate_pt() (turns=None) yield exactly the n rotations starting with the current one, and "
+         "rotate_complex_pt/rotate_complex_db yield the same n with k-th element = the ((n-k) mod n)-th. The proof "
+         "characterises the literal scan/flip loops on the zipper text A0(A1(..Ak+B0)..)Bk. 'Inputs not modified' and the "
+         "generators with explicit turn counts are observed by the correspondence, not proved. Model tied to the code by "
+         "differential runs of all seven operations on every well-formed structure of length <= 8 (quick) / 10 (thorough) "
+         "with generated domains, random complexes up to 60 strands / depth 100, single, disconnected and symmetric "
+         "complexes, and mutated inputs.",
+    design="DESIGN.md 5, 7 (C07)", technique="Coq proof (zipper decomposition of Dyck trees, track/entry-list relabelling, induction) + model/implementation correspondence"),
+ "C08": dict(
+    text="Proof, all well-formed structures, no size bound: make_loop_index (both modes) returns the pre-order loop "
+         "decomposition and the break-loop list; it raises SecondaryStructureError exactly when the strand graph (independent "
+         "inductive definition, base pairs as edges) is disconnected, proved in both directions; position-wise reading: shape, "
+         "k-th opening bracket carries k+1, partners equal, unpaired positions get the innermost enclosing pair, a break's "
+         "loop is the innermost spanning pair; is_connected, get_loop_index, exterior/enclosed domains and "
+         "is_domainlevel_complement are characterised as pure functions of (sequence, structure). Tie: exhaustive "
+         "differential runs for length <= 8 quick / 10 thorough, random structures up to 60 strands / depth 100, damaged "
+         "pair tables, ill-formed and misaligned objects, the five object views called in random order.",
+    design="DESIGN.md 5, 7 (C08)", technique="Coq proof (machine simulation on Dyck trees, loop-tree inductions) + model/implementation correspondence"),
+ "C09": dict(
+    text="Proof, all well-formed structures: the strands of the parts partition the input, in increasing original order, content "
+         "unchanged; every part's table is the input table restricted and re-indexed (no pair lost, none introduced); every "
+         "part is well-formed and connected and is exactly one connectivity class; a connected complex is returned unchanged; "
+         "never out of fuel, never an error on well-formed input; the dot-bracket wrapper is characterised. Partial: the "
+         "object level with registries is modelled and corresponds on every run; the clause 'splitting twice always yields "
+         "identical objects' is REFUTED in the model with a witness replayed on the implementation (recorded known finding); "
+         "the positive registry-level clauses are not proved.",
+    design="DESIGN.md 5, 7 (C09)", technique="Coq proof (tree surgery + induction on fuel) + model/implementation correspondence"),
+ "C01": dict(
+    text="Proof: the registry invariant RegOK (registry values are live objects of exactly that class under their name / their "
+         "registered keys, no key bound twice, every live object registered under both keys, hence one live object per name "
+         "and per canonical form) holds initially and is preserved by every step of every operation of all five classes "
+         "incl. subclasses and failing constructors, by induction over histories; a consistent request returns the object; "
+         "every refused request (any error kind) leaves slots, registries and live objects unchanged up to dead temporaries "
+         "and `existing` is a live canon owner; a name-only request is a pure lookup; counters move only on Created / failing "
+         "user constructor. Tie: differential correspondence of whole histories (depth-3 exhaustive per class, random over a "
+         "zoo of 23 classes), every step compared (outcome, existing, identities, both registries, attributes, counters, "
+         "weakref liveness). Partial: name_only for domains at operation level, exact counter increment.",
+    design="DESIGN.md 6, 7 (C01)", technique="Coq proof (invariant by induction over operation lists on a heap/registry state machine) + model/implementation correspondence for histories"),
+ "C04": dict(
+    text="Proof: complementary domains of one class have equal lengths in every reachable state, for arbitrary nonzero class "
+         "constants, nonzero explicit lengths and names with an unstarred base; the model refutes the statement without "
+         "these guards (two witnesses, replayed on the implementation on every run and recorded as known findings); what ~d "
+         "returns has toggled name / same length / same class and ~~d is d; dtype rules exact; contradictory dtype/length "
+         "refused without change. Tie: every history of depth 4 (quick) / 5 (thorough) over a small alphabet, subclasses with "
+         "changed constants, random long histories.",
+    design="DESIGN.md 6, 7 (C04)", technique="Coq proof (nested-call specification by induction on fuel, invariant over histories) + correspondence (depth-4/5 exhaustive)"),
+ "C05": dict(
+    text="Proof on the abstract heap graph of the registry machine: in every reachable state live <=> reachable from a user "
+         "slot through strong children <=> registered; no loss; after a drop exactly what the remaining slots reach survives "
+         "and the rest has no registry entry left, so its name and canonical form can be redefined; refused requests, queries "
+         "and turns assignments retain nothing. Partial by nature: that CPython frees at reference count zero, that weak "
+         "dictionary callbacks fire and that no C-level or traceback reference survives are runtime facts observed per step "
+         "(weakref liveness with gc disabled, held-then-dropped exceptions, split/rotate/lazy-cache queries by the oracle); "
+         "the release of a whole read_pil result after one gc pass is executed on generated systems on every run.",
+    design="DESIGN.md 6, 7 (C05)", technique="Coq proof (reachability sweep on the heap model, induction over histories) + weakref liveness correspondence"),
+ "C13": dict(
+    text="Proof on a Gallina PEG interpreter (transcription of pyparsing 3.3 _parseNoCache/preParse/ignorables) over the node "
+         "table regenerated on every run from the runtime element graph: a document parses to the concatenation of its "
+         "statements' parses; the result is independent of fuel and of everything but table and text; parsing a file is "
+         "parsing its content; round trip parse(render t) = [t] for every name, number, list length, nesting depth and "
+         "blank/comment/line-end layout of dl-domain, sl-domain, strand/sup-sequence, macrostate, both strand-complex forms, "
+         "reaction without rate box, kernel complex without concentration; rejection of a missing assignment sign and of a "
+         "malformed number; missing-name rejection REFUTED (`length = 5`, known finding). Not proved: rate box, "
+         "concentration, tab layouts, unbalanced brackets, sufficiency of the default fuel — all of it, plus files and parser "
+         "histories, is compared with pyparsing and evaluated on the implementation on every run.",
+    design="DESIGN.md 7 (C13)", technique="Coq big-step rules derived from a fuelled PEG interpreter + regenerated grammar table + differential correspondence with pyparsing"),
+ "C14": dict(
+    text="Proof about a Gallina model of read_pil / read_pil_line over the registry machine (Hoare logic over a state/exception "
+         "monad, under the session invariant): a line read alone is the line in a document; `ignore` skips statement kinds; "
+         "the complement sequence is the reverse WC complement; the domains field is exact for any well-shaped document in any "
+         "order; per statement: strands, reaction type / filing / rate / units, kernel complex name / class / concentration; "
+         "no interpreter-level fault; failed reads keep held objects; configured classes. Partial: complex sequence and "
+         "structure, composite expansion, macrostate and reaction members are compared with the generator's expected system "
+         "through the whole-reader correspondence (text -> Gallina PEG parse -> reader model vs read_pil) on generated systems "
+         "in every notation, order and layout, on all <=3-statement documents over a pool, and on the C16 fault streams.",
+    design="DESIGN.md 7 (C14)", technique="Coq proof (Hoare logic over a state/exception monad on the registry model; regenerated tables) + model/implementation correspondence of the whole reader"),
+ "C15": dict(
+    text="Proof: frame theorem per class (an operation on class A leaves registries and own ID of every other class untouched, "
+         "created objects belong to the class called), failing user constructors never create and leave no trace, registry "
+         "values have exactly the class of the registry; reader: in sessions satisfying the session invariant every object "
+         "the reader creates is an instance of exactly the configured class of its kind and every registry holds only its own "
+         "class; REFUTED in mixed sessions (known finding, replayed on every run). Tie: histories over a zoo of 23 classes "
+         "(direct, sub-sub, siblings, changed constants, failing before/after super().__init__).",
+    design="DESIGN.md 6, 7 (C15)", technique="Coq proof (frame property of the registry machine, reader session invariant) + correspondence over the subclass zoo"),
+ "C19": dict(
+    text="Proof on the same PEG interpreter over the regenerated seesaw node table: documents parse to the concatenation of "
+         "their statements, fuel independence, file = content, round trips of reporter and INPUT statements and of wires for "
+         "all numbers and layouts, rejection of an input bound to a fluorophore. The other statement kinds (OUTPUT, seesaw, the "
+         "three conc forms, inputfanout, seesawOR, seesawAND) and the negative family are compared with pyparsing and evaluated "
+         "on the implementation on every run (round trips, rejections), not proved.",
+    design="DESIGN.md 7 (C19)", technique="Coq big-step rules from the fuelled PEG interpreter + regenerated grammar table + differential correspondence with pyparsing"),
 }
 
 NOT_YET = {}
